@@ -25,7 +25,7 @@ PROPERTY = "C10"
 LEVEL = "exploration"
 EXHAUSTIVE = False
 CRASH_IS_VIOLATION = False
-RULE = ("five scenario families per (framework, transport, serializer): (1) behaviour matrix - every endpoint outcome "
+RULE = ("six scenario families per (framework, transport, serializer): (1) behaviour matrix - every endpoint outcome "
         "{value kinds, CallResult shapes, None, un-serializable (object / nested / in CallResult / function / with a huge "
         "repr), encoded size = limit-1, limit, limit+1, 2*limit; raises ApplicationError / decorated / define()d / unmapped, "
         "with un-serializable or oversized args} x {synchronous, already-fired future, pending future resolved later} x "
@@ -33,11 +33,17 @@ RULE = ("five scenario families per (framework, transport, serializer): (1) beha
         "after, while pending, after progress, after completion, twice, byte-wise delivery); (3) random histories of 1-8 "
         "concurrent invocations with interleaved resolutions, progress emissions, INTERRUPTs, glued reads, request-id reuse "
         "after completion; (4) every order of the resolve/interrupt events of 2-3 concurrently pending invocations; (5) "
-        "limit sweep over the RawSocket exponents 10..24 and WebSocket maxMessagePayloadSize values at -1/0/+1.  A case is "
+        "limit sweep over the RawSocket exponents 10..24 and WebSocket maxMessagePayloadSize values at -1/0/+1; (6) "
+        "Registration.unregister() (from the application or from inside the endpoint) and the router's UNREGISTERED / ERROR "
+        "reply at every point relative to pending invocations of that registration (result before / between / after, "
+        "invoked between UNREGISTER and UNREGISTERED, interrupted or progressive across it, two pending), also mixed into "
+        "the random histories.  A case is "
         "non-trivial when at least one delivered invocation was judged from the wire; distinct = hash(framework, case).")
 ASSUMPTIONS = [
     "the scripted router is conforming: INVOCATIONs only for registrations it confirmed, request ids unique among "
-    "outstanding invocations (an id is reused only after its terminal reply was seen on the wire), INTERRUPTs with valid options",
+    "outstanding invocations (an id is reused only after its terminal reply was seen on the wire), INTERRUPTs with valid options; "
+    "INVOCATIONs may still arrive between the callee's UNREGISTER and the router's UNREGISTERED, never after it; every "
+    "invocation received before UNREGISTERED keeps its claim to exactly one terminal reply",
     "the harness codecs (plain json/msgpack/cbor2/bjdata) and its frame parsers are trusted for decoding what the transport "
     "wrote; 'exceeds the limit' is decided with the plain codec's encoded length and the observed wire length of every "
     "accepted boundary YIELD is compared with that prediction (counter length_prediction_exact / _mismatch)",
@@ -61,7 +67,9 @@ DECIDING = {
     "interrupt_while-pending": 1000, "interrupt_same-read": 500, "interrupt_before-invocation": 500,
     "interrupt_after-completion": 500, "cancel_error_seen": 1000, "pending_silent_checked": 200,
     "limit_boundary_yield": 300, "length_prediction_exact": 300, "concurrent_cases": 1500, "rid_reused": 300,
-    "oversized_cases": 1000, "unserializable_cases": 1000, "combos": 16, "families": 5,
+    "oversized_cases": 1000, "unserializable_cases": 1000, "combos": 16, "families": 6,
+    "unregister_requests": 1000, "unregistered_delivered": 800, "replies_due_after_unregistered": 500,
+    "inv_between_unregister_and_reply": 200, "unregister_refused": 100,
 }
 
 COMBOS = [(t, s) for t in ("websocket", "rawsocket") for s in ("json", "msgpack", "cbor", "ubjson")]
@@ -348,9 +356,85 @@ def gen_random(g, n_cases):
         steps = clean
         if r.random() < 0.2:
             steps.append(["adv", r.choice([0.1, 1.0, 30.0])])
-        steps.append(g.probe(procs, invs, rids[n]))
+        if r.random() < 0.3:
+            # the application unregisters one procedure somewhere in the history; the router answers later
+            upi = r.randrange(len(procs))
+            a = r.randint(0, len(steps))
+            steps.insert(a, ["unreg", upi])
+            b = r.randint(a + 1, len(steps))
+            how = "ok" if r.random() < 0.8 else "err"
+            if b < len(steps) and steps[b][0] == "feed" and r.random() < 0.4:
+                steps[b][1].insert(r.randint(0, len(steps[b][1])), ["unregd", upi, how])
+            else:
+                steps.insert(b, ["unregd", upi, how])
+            procs.append(g.proc())            # the trailing probe needs a procedure that is certainly still registered
+            invs.append(g.inv(len(procs) - 1, procs[-1], rids[n], {"mode": "sync", "out": ["ret", "tag"], "progress": []}, shape="args", rp=False))
+            steps.append(["feed", [["inv", len(invs) - 1]]])
+        else:
+            steps.append(g.probe(procs, invs, rids[n]))
         sized = any(inv["plan"]["out"][1].startswith(("big:", "ubig:")) for inv in invs)
         yield g.base(procs, invs, steps, g.limit(need_limit=sized and r.random() < 0.8), "random")
+
+
+UNREG_PLACEMENTS = ["result-after-unregistered", "result-between", "result-before-unregister", "invoked-between",
+                    "invoked-same-read-as-unregistered", "unregister-refused", "interrupt-after-unregistered",
+                    "progress-across", "unregister-inside-endpoint", "two-pending-across", "unregistered-glued-with-interrupt"]
+
+
+def gen_unregister(g, tier, part, parts):
+    """registration.unregister() and the router's UNREGISTERED / ERROR at every point relative to invocations of
+    that registration: everything received before UNREGISTERED still needs exactly one terminal reply."""
+    r = g.rng
+    idx = 0
+    outs_all = [["ret", "tag"], ["raise", "app"], ["ret", "cr"], ["raise", "unmapped"], ["ret", "none"], ["ret", "unser"], ["ret", "big:+1"]]
+    for style in g.styles:
+        for mode in ("pending", "sync", "fired"):
+            if style in ("coro", "icb") and mode == "fired":
+                continue
+            outs = outs_all if tier != "quick" else outs_all[:2] + [r.choice(outs_all[2:])]
+            for out in outs:
+                for pl in UNREG_PLACEMENTS:
+                    idx += 1
+                    if idx % parts != part:
+                        continue
+                    progressive = pl == "progress-across"
+                    det = r.choice(["flag", "arg:d"]) if progressive else r.choice(DETS)
+                    procs = [g.proc(style, det), g.proc()]          # proc 1 stays registered (probe)
+                    rids = g.rids(4)
+                    plan = g.plan(procs[0], out, mode, progress=[] if progressive else None)
+                    if pl == "unregister-inside-endpoint":
+                        plan["unreg_in_endpoint"] = True
+                    invs = [g.inv(0, procs[0], rids[0], plan, rp=True if progressive else None)]
+                    I, U, OK = ["feed", [["inv", 0]]], ["unreg", 0], ["unregd", 0, "ok"]
+                    if pl == "result-after-unregistered":
+                        steps = [I, U, OK, ["res", 0]]
+                    elif pl == "result-between":
+                        steps = [I, U, ["res", 0], OK]
+                    elif pl == "result-before-unregister":
+                        steps = [I, ["res", 0], U, OK]
+                    elif pl == "invoked-between":
+                        steps = [U, I, OK, ["res", 0]]
+                    elif pl == "invoked-same-read-as-unregistered":
+                        steps = [U, ["feed", [["inv", 0], ["unregd", 0, "ok"]], r.choice([None, "bytewise"])], ["res", 0]]
+                    elif pl == "unregister-refused":
+                        invs.append(g.inv(0, procs[0], rids[1], g.plan(procs[0], None, "pending")))
+                        steps = [I, U, ["unregd", 0, "err"], ["res", 0], ["feed", [["inv", 1]]], ["unreg", 0], ["res", 1], OK]
+                    elif pl == "interrupt-after-unregistered":
+                        steps = [I, U, OK, ["feed", [["int", 0, r.choice(INT_OPTS)]]], ["res", 0]]
+                    elif pl == "progress-across":
+                        steps = [I, ["prog", 0, "tag"], U, ["prog", 0, "kw"], OK, ["prog", 0, "both"], ["res", 0]]
+                    elif pl == "unregister-inside-endpoint":
+                        steps = [I, OK, ["res", 0]]
+                    elif pl == "two-pending-across":
+                        invs.append(g.inv(0, procs[0], rids[1], g.plan(procs[0], None, "pending")))
+                        steps = [["feed", [["inv", 0], ["inv", 1]]], U, ["res", 1], OK, ["res", 0]]
+                    else:
+                        steps = [I, U, ["feed", [["unregd", 0, "ok"], ["int", 0, r.choice(INT_OPTS)]]], ["res", 0]]
+                    pi = 1
+                    invs.append(g.inv(pi, procs[pi], rids[3], {"mode": "sync", "out": ["ret", "tag"], "progress": []}, shape="args", rp=False))
+                    steps.append(["feed", [["inv", len(invs) - 1]]])
+                    sized = out[1].startswith("big:")
+                    yield g.base(procs, invs, steps, g.limit(need_limit=sized), "unregister")
 
 
 def gen_orders(g, tier, part, parts):
@@ -453,7 +537,8 @@ def run_shard(params, R):
     import autobahn.websocket as W
     R.seen("nvx", "uses_nvx=%s" % getattr(W, "USES_NVX", None))
     n_random = 600 if tier == "quick" else 5000
-    gens = [gen_matrix(g, tier, part, parts), gen_interrupt_points(g, tier, part, parts), gen_orders(g, tier, part, parts),
+    gens = [gen_matrix(g, tier, part, parts), gen_interrupt_points(g, tier, part, parts), gen_unregister(g, tier, part, parts),
+            gen_orders(g, tier, part, parts),
             gen_limits(g, tier, part, parts, seed), gen_random(g, n_random)]
     import time
     spent = {}
